@@ -165,7 +165,18 @@ def gen_case(rng, tier, g):
                               'full-shrink-full', 'full-permute-full',
                               'partial-full-close', 'partial-full-drop',
                               'srcfail-full'])
+        interp = None
+        if fmt != 'pickle' and rng.random() < 0.012:
+            # an interpreter whose default text encoding is not UTF-8, and
+            # the encoding argument left to that default
+            interp = {'LC_ALL': 'C', 'LANG': 'C', 'PYTHONUTF8': '0',
+                      'PYTHONCOERCECLOCALE': '0'}
+            if 'encoding' in args:
+                args['encoding'] = None
+            args.setdefault('errors', 'replace')
+            history = 'full'
         return {'prop': PROP, 'machine': 'tee', 'fmt': fmt, 'args': args,
+                'interp_env': interp,
                 'config': draw_config(rng, 0.25, exclude=('sort_buffersize',)),
                 'table': table, 'history': history,
                 'partial': rng.randint(0, n + 1),
